@@ -793,12 +793,18 @@ int main(void)
 		}
 		else if (!strcmp(op, "arm") && drv_nw == 3) {
 			/* `zero:<n>`: mpt_reply_set with a null data pointer (n zero bytes) */
-			if (!ctx || drv_parse_data(drv_w[2], &dat, &dlen, &isnull) || dlen > 70000) { puts("bad-op"); free(dat); continue; }
+			/* `self:<hex>`: the id has been received straight into the context's own value buffer, mpt_reply_set(rd, len, rd->val) */
+			int self = !strncmp(drv_w[2], "self:", 5);
+			if (!ctx || drv_parse_data(drv_w[2] + (self ? 5 : 0), &dat, &dlen, &isnull) || dlen > 70000 || (self && isnull)) { puts("bad-op"); free(dat); continue; }
 			int zero = isnull;
 			MPT_STRUCT(reply_data) *rd = 0;
 			int r = MPT_metatype_convert(ctx, MPT_ENUM(TypeReplyDataPtr), &rd);
 			if (r < 0 || !rd) { result("noconv", r); free(dat); continue; }
-			r = mpt_reply_set(rd, dlen, zero ? 0 : dat);
+			if (self && !rd->len && dlen <= rd->_max) {
+				memcpy(rd->val, dat, dlen);
+				r = mpt_reply_set(rd, dlen, rd->val);
+			}
+			else r = mpt_reply_set(rd, dlen, zero ? 0 : dat);
 			free(dat);
 			/* "arming never disturbs the reply context itself": the context still hands out the same interfaces */
 			result(r < 0 ? (ctx_snapshot(0) ? "refused ctx=intact" : "refused ctx=CHANGED") : (ctx_snapshot(0) ? "ok ctx=intact" : "ok ctx=CHANGED"), r);
